@@ -16,7 +16,8 @@ For every well-formed snapshot (`WF`: every reference points to an allocated obj
   non-stuttering step, so at most `Σ_o (nfields o + 1) + |roots|` steps of any run are effective,
   and the work list can always be drained.
 * for every run that ends with `pending = []`:
-  `trace_reach_exact`, `trace_injective`, `trace_iso`, `trace_onto`, `trace_identity`.
+  `trace_reach_exact`, `trace_injective`, `trace_iso`, `trace_onto`, `trace_identity`,
+  `trace_schedule_independent`.
 * `twoPhase_iso` — mark (the closure with `moves = false`) → any forwarding `F` injective on the
   marked objects → update + move (MarkCompact / Compressor).
 
@@ -28,10 +29,6 @@ namespace Mmtk.Trace
 variable {S : Snap} {moves : Id → Bool}
 
 /-! ## Termination -/
-
-/-- the measure at the start: every allocated object owes `nfields + 1`, plus the root slots -/
-def initialWork (S : Snap) (B : Nat) : Nat :=
-  sumTo (fun i => match S.heap i with | some o => o.fields.length + 1 | none => 0) B + S.roots.length
 
 theorem measure_init (S : Snap) (B : Nat) : measure S B (init S) = initialWork S B := by
   simp only [measure, initialWork, init, List.length_map, List.length_range]
@@ -68,6 +65,11 @@ theorem trace_completes (S : Snap) (moves : Id → Bool) (B : Nat)
     (hB : ∀ i, (S.heap i).isSome = true → i < B) :
     (exec S moves (init S) (List.replicate (initialWork S B) 0)).pending = [] :=
   drain S moves B hB _ _ (by rw [measure_init]; exact Nat.le_refl _)
+
+/-- the reference collector `collect` finishes -/
+theorem collect_finished (S : Snap) (moves : Id → Bool) (B : Nat)
+    (hB : ∀ i, (S.heap i).isSome = true → i < B) : (collect S moves B).pending = [] :=
+  trace_completes S moves B hB
 
 /-! ## Finished runs -/
 
@@ -203,6 +205,33 @@ theorem trace_onto (wf : WF S) (run : List Nat) (n : Id) (t : TObj)
   have inv : Inv S moves _ := run_inv wf run
   obtain ⟨o, ho⟩ := inv.onto n (by simp [ht])
   exact ⟨o, inv.reach o n ho, ho⟩
+
+/-- **trace_schedule_independent**: two finished runs (different schedules, e.g. the real
+collector's and the reference collector's) produce the same heap up to the names of the to-objects:
+every reachable object has, in both, a to-object with equal size / hash / moved flag whose fields are
+the images of the same snapshot fields under the respective forwarding tables. -/
+theorem trace_schedule_independent (wf : WF S) (run₁ run₂ : List Nat)
+    (h₁ : (exec S moves (init S) run₁).pending = []) (h₂ : (exec S moves (init S) run₂).pending = []) :
+    let st₁ := exec S moves (init S) run₁
+    let st₂ := exec S moves (init S) run₂
+    (∀ o, (st₁.fwd o).isSome = (st₂.fwd o).isSome) ∧
+    (∀ o obj, Reach S o → S.heap o = some obj →
+      ∃ n₁ t₁ n₂ t₂, st₁.fwd o = some n₁ ∧ st₁.tobjs n₁ = some t₁ ∧ st₂.fwd o = some n₂ ∧
+        st₂.tobjs n₂ = some t₂ ∧ t₁.size = t₂.size ∧ t₁.hash = t₂.hash ∧ t₁.moved = t₂.moved ∧
+        t₁.fields = obj.fields.map (mapRef st₁.fwd) ∧ t₂.fields = obj.fields.map (mapRef st₂.fwd)) ∧
+    st₁.troots = S.roots.map (mapRef st₁.fwd) ∧ st₂.troots = S.roots.map (mapRef st₂.fwd) := by
+  intro st₁ st₂
+  have i₁ := trace_iso (moves := moves) wf run₁ h₁
+  have i₂ := trace_iso (moves := moves) wf run₂ h₂
+  refine ⟨?_, ?_, i₁.2.1, i₂.2.1⟩
+  · intro o
+    have e₁ := trace_reach_exact (moves := moves) wf run₁ h₁ o
+    have e₂ := trace_reach_exact (moves := moves) wf run₂ h₂ o
+    cases ha : (st₁.fwd o).isSome <;> cases hb : (st₂.fwd o).isSome <;> simp_all [st₁, st₂]
+  · intro o obj hr ho
+    obtain ⟨n₁, t₁, a1, a2, a3, a4, a5, a6, _⟩ := i₁.1 o obj hr ho
+    obtain ⟨n₂, t₂, b1, b2, b3, b4, b5, b6, _⟩ := i₂.1 o obj hr ho
+    exact ⟨n₁, t₁, n₂, t₂, a1, a2, b1, b2, by rw [a3, b3], by rw [a4, b4], by rw [a5, b5], a6, b6⟩
 
 /-! ### identity of referents -/
 
